@@ -431,12 +431,14 @@ func Clamp(a, lo, hi interface{}) Res {
 		return Res{V: gClamp(x, lo.(uint64), hi.(uint64))}
 	case float32:
 		if x != x {
-			return Res{Skip: true}
+			// a NaN is neither below the lower nor above the upper bound: clamping leaves it (what the comparisons the
+			// operation is defined by say, and the only answer that does not depend on which kernel walks the operand)
+			return Res{V: x}
 		}
 		return Res{V: gClamp(x, lo.(float32), hi.(float32))}
 	case float64:
 		if x != x {
-			return Res{Skip: true}
+			return Res{V: x}
 		}
 		return Res{V: gClamp(x, lo.(float64), hi.(float64))}
 	}
